@@ -324,6 +324,67 @@ def run_job(spec):
                             res["witness_mismatch"].append(dict(inputs=cxb, symbolic=jsonable(sym_b), real=jsonable(real_b)))
                         stop = True
                         break
+            # ---- 1c. a diverse witness: a member of the path on which inputs of the same range take pairwise different values where the
+            # path allows it (the solver's first model tends to give every input the same smallest value, and an effect such as
+            # "the write went to a copy" is invisible when the value written equals the value already there)
+            if not stop and os.environ.get("VERIF_DIVERSE_WITNESS", "1") != "0":
+                groups = {}
+                for nm in V.names:
+                    if V.kinds[nm] == "int" and V.vars[nm].hi is not None and V.vars[nm].lo is not None and V.vars[nm].hi > V.vars[nm].lo:
+                        groups.setdefault((V.vars[nm].lo, V.vars[nm].hi), []).append(nm)
+                pushes, budget = 0, [10]
+                # proposed values: round-robin over the range within each group (cheap for the solver: plain equalities); a group
+                # whose proposal does not fit the path is halved
+                proposal = {}
+                for (lo_, hi_), names_ in groups.items():
+                    for i_, nm in enumerate(names_):
+                        proposal[nm] = lo_ + (i_ + 1) % (hi_ - lo_ + 1)
+                s.set("timeout", 300)
+
+                def spread(names):
+                    nonlocal pushes
+                    if not names or budget[0] <= 0:
+                        return
+                    budget[0] -= 1
+                    s.push()
+                    s.add(*[V.vars[nm].t == proposal[nm] for nm in names])
+                    if s.check() == z3.sat:
+                        pushes += 1
+                        return
+                    s.pop()
+                    if len(names) > 1:
+                        spread(names[:len(names) // 2])
+                        spread(names[len(names) // 2:])
+                for key in sorted(groups, key=lambda k_: -len(groups[k_])):
+                    spread(groups[key])
+                md = None
+                if pushes:
+                    if s.check() == z3.sat:
+                        md = s.model()
+                    for _ in range(pushes):
+                        s.pop()
+                s.set("timeout", 120000)
+                if md is not None:
+                    cxd = V.concrete(md)
+                    try:
+                        sym_d = eval_out(out, md)
+                    except Exception:
+                        sym_d = None
+                    if sym_d is not None and cxd != cx:
+                        real_d = plain_call(spec["module"], spec["harness"], skel, cxd)
+                        res["diverse_witnesses"] = res.get("diverse_witnesses", 0) + 1
+                        if not same(sym_d, real_d):
+                            why = None
+                            try:
+                                why = H.oracle(skel, cxd, real_d)
+                            except Exception:
+                                why = None
+                            if why is not None and not any(region_eval(k["region"], cxd, skel) is True for k in known_all):
+                                res["violations"].append(dict(obligation="diverse-witness", inputs=cxd, output=jsonable(real_d),
+                                                              why=("[real run of a member of the path with pairwise different inputs; the symbolic model diverges here] " + why)[:1000]))
+                            else:
+                                res["witness_mismatch"].append(dict(inputs=cxd, symbolic=jsonable(sym_d), real=jsonable(real_d)))
+                            stop = True
             if stop:
                 if res["violations"]:
                     break
